@@ -153,7 +153,16 @@ def boundary(t, v, text) -> bool:
 
 
 def warm_with(t, v, T):
-    """Touch the caches with an equal-but-differently-represented value first."""
+    """Touch the caches with an equal-but-differently-represented value first - and with inputs the routine rejects: a
+    handled failure, and the text of a sibling value, are part of a warm history like any other call."""
+    for junk in ("zzz-not-valid", "2", "", b"\xff\xfe", None, [1], 2):
+        tl.call(tl.unmarshal, T, junk)
+    if isinstance(v, enum.Enum):
+        for sib in type(v):
+            if sib is not v:
+                tl.call(tl.unmarshal, T, str(sib.value))
+                tl.call(tl.unmarshal, T, sib.value)
+        return True
     w = None
     if t == "datetime":
         try:
